@@ -791,7 +791,7 @@ fn check_env(case: &CliCase, classes: &[u8], crams: &[bool], same_names: bool, f
             di += 1;
         }
     }
-    let workdir = sb.scratch.sub("userwork");
+    let workdir = sb.scratch.sub("user w\u{f6}rk dir");
     std::fs::write(workdir.join("precious.txt"), b"keep me").ok();
     let mut args: Vec<String> = vec!["test".into(), "--no-color".into(), "-r".into(), "json".into()];
     match flag {
@@ -845,6 +845,9 @@ fn check_env(case: &CliCase, classes: &[u8], crams: &[bool], same_names: bool, f
         }
         if entries.iter().any(|e| e.starts_with("temp.")) {
             res.findings.push(Finding::new("C18", "temporary-directory-inside-work-directory-removed", format!("{}: no temp.* left in the work directory", describe()), format!("{entries:?}")));
+        } else if entries != vec!["precious.txt".to_string()] {
+            // the test cases of these scenarios create no files: anything else was created by scrut
+            res.findings.push(Finding::new("C18", "nothing-else-created-in-work-directory", format!("{}: the work directory holds only what the user put there", describe()), format!("{entries:?}")));
         }
     }
     // ---- environment of every executed test case
